@@ -137,10 +137,22 @@ class Engine:
     def run_real(self, sc, args, explicit=(), packed=False, pack_refs=False, bare=False, extra_args=None, keep=False):
         self.n += 1
         d = os.path.join(self.scratch, "repo%d" % self.n)
+        grafts = packed == "info/grafts"
+        if grafts:
+            packed = False
         store = packed if packed in ("GIT_OBJECT_DIRECTORY", "GIT_ALTERNATE_OBJECT_DIRECTORIES", "objects/info/alternates") else None
         gitdir = sc.materialise(d, bare=bare, packed=(True if store == "objects/info/alternates" else False) if store else packed, pack_refs=pack_refs)
         cli = list(extra_args if extra_args is not None else ["--json", "--json-version=1", "--no-progress"]) + list(args) + \
             [sp for sp, _ in explicit]
+        if grafts:
+            # a legacy grafts file (still read by git 2.39): it gives the newest commit every other commit of the store as a
+            # parent — unreachable ones included — and cuts the parents of the second newest; neither may be seen
+            commits = [i for i, o in enumerate(sc.objects) if o["kind"] == "commit"]
+            if len(commits) >= 2:
+                os.makedirs(os.path.join(gitdir, "info"), exist_ok=True)
+                with open(os.path.join(gitdir, "info", "grafts"), "w") as f:
+                    f.write(" ".join([sc.oids[commits[-1]].hex()] + [sc.oids[c].hex() for c in commits[:-1]]) + "\n")
+                    f.write(sc.oids[commits[-2]].hex() + "\n")
         if store:
             # the object store outside $GIT_DIR/objects, found through the caller's environment or the alternates file
             objs = d + ".objects"
